@@ -32,7 +32,7 @@ func init() { core.Register(prop{}) }
 func (prop) ID() string    { return "C07" }
 func (prop) Level() string { return "fault_enumeration" }
 func (prop) Rule() string {
-	return "direct: every sequence of up to 4 (quick) / 6 (thorough) single-line writes with line lengths from {10, 11, 511, 512, 1022, 1023, 1024, 1025, 2049} to the real rotating writer with max size 1024 (exhaustive), seeded sequences of multi-line batches for max sizes 1024/4096/1 MiB, with the log file renamed or removed externally between writes (fault points: before every write); end to end: the real FileBackend fed bursts of 1..5000 stamped events of 2 B..600 KiB from 1/4/32 goroutines, read back after 2.5 flush intervals; faults: destination directory missing or unwritable before the writer opens the file. Non-trivial = a sequence that caused >=1 rotation or a backend whose file received >=1 line; distinct by sequence / backend parameters."
+	return "direct: every sequence of up to 4 (quick) / 6 (thorough) single-line writes with line lengths from {10, 11, 511, 512, 1022, 1023, 1024, 1025, 2049} to the real rotating writer with max size 1024 (exhaustive), seeded sequences of multi-line batches for max sizes 1024/4096/1 MiB, with the log file renamed or removed externally, or the writer closed and a new instance opened on the same path (restart), between writes (fault points: before every write; restart exhaustively for sequences up to 3 writes); end to end: the real FileBackend fed bursts of 1..5000 stamped events of 2 B..600 KiB from 1/4/32 goroutines, read back after 2.5 flush intervals; faults: destination directory missing or unwritable before the writer opens the file. Non-trivial = a sequence that caused >=1 rotation or a backend whose file received >=1 line; distinct by sequence / backend parameters."
 }
 func (prop) Assumptions() []string {
 	return []string{"a final line without trailing newline counts as a line if it parses", "lines removed by the harness's own external 'rm' are not expected back; an externally renamed file is read back under its new name", "under an unwritable destination only 'Send does not block forever' is demanded"}
@@ -163,7 +163,8 @@ func (o *seqObs) bad(rule, desc, seq string) {
 type batchT []int // line lengths
 
 // runSeq writes the batches to a fresh rotating file and checks what is on disk.
-// fault: 0 none, 1 rename the log file before write #at, 2 remove it before write #at.
+// fault: 0 none, 1 rename the log file before write #at, 2 remove it before write #at,
+// 3 restart: close the writer and open a new instance on the same path before write #at.
 func runSeq(dir string, id int, maxSize int64, batches []batchT, fault, at int, ob *seqObs) {
 	ob.Sequences++
 	sub := filepath.Join(dir, fmt.Sprintf("s%d", id))
@@ -206,6 +207,17 @@ func runSeq(dir string, id int, maxSize int64, batches []batchT, fault, at int, 
 				}
 			}
 			os.Remove(path)
+		}
+		if fault == 3 && bi == at && bi > 0 {
+			// the channel is restarted: a new writer instance continues on the same path
+			w.Sync()
+			w.Close()
+			w2, err := fschannel.OpenRotateFile(path, 0600, maxSize)
+			if err != nil {
+				ob.bad("reopen", err.Error(), desc())
+				return
+			}
+			w = w2
 		}
 		var buf []byte
 		for _, n := range b {
@@ -281,6 +293,25 @@ func childSeq(p params, o *core.Obs) {
 		}
 	}
 	rec(1)
+	// the same sequences up to 3 writes with the writer restarted before every later write
+	// (all within the same second: the rotated files of the first instance must survive)
+	var rec2 func(depth int)
+	seq = []batchT{{lens[p.First]}}
+	rec2 = func(depth int) {
+		for at := 1; at < len(seq); at++ {
+			id++
+			runSeq(dir, id, 1024, seq, 3, at, &ob)
+		}
+		if depth == 3 {
+			return
+		}
+		for _, n := range lens {
+			seq = append(seq, batchT{n})
+			rec2(depth + 1)
+			seq = seq[:len(seq)-1]
+		}
+	}
+	rec2(1)
 	o.EmitX("seq", ob)
 }
 
@@ -313,8 +344,8 @@ func childSeeded(b core.Batch, p params, o *core.Obs) {
 			bs = append(bs, bt)
 		}
 		fault, at := 0, 0
-		if r.Chance(1, 5) {
-			fault, at = r.Range(1, 2), r.Intn(len(bs))
+		if r.Chance(2, 5) {
+			fault, at = r.Range(1, 3), r.Intn(len(bs))
 		}
 		runSeq(dir, i, maxSize, bs, fault, at, &ob)
 		if i == 0 {
